@@ -318,7 +318,10 @@ def run_full(rng, cases, dims, repeats, model):
                     groups = groups[:-1]                       # some alternatives belong to no nest
                 nests_ref = [(sorted(g), 1.0 + float(rng.integers(1, 7)) / 4.0) for g in groups]
                 nests = NestsForNestedLogit(choice_set=ids, tuple_of_nests=tuple(
-                    OneNestForNestedLogit(nest_param=Beta(f'mu{q}', mu, 1, None, 1), list_of_alternatives=g, name=f'n{q}')
+                    OneNestForNestedLogit(nest_param=Beta(f'mu{q}', mu, 1, None, 1), list_of_alternatives=g,
+                                          # nest labels are free text: the same label twice (c % 4 == 1), a label that collides with the
+                                          # automatic name of an unnamed nest (c % 4 == 3), or distinct labels
+                                          name=('same' if c % 4 == 1 else ('nest_2' if q == 0 else None) if c % 4 == 3 else f'n{q}'))
                     for q, (g, mu) in enumerate(nests_ref)))
             elif model == 'cnl':
                 k = 2 if len(ids) >= 2 else 1
